@@ -645,6 +645,7 @@ long __wrap_syscall (long n, long a, long b, long c, long d, long e, long f) {
 	if (!mode_b) {
 		if (cmd == FUTEX_WAIT || cmd == FUTEX_WAIT_BITSET) {
 			int fe = take_fault (ts != NULL);
+			if (fe == RT_FAULT_SPURIOUS_WAKE) return (0);     /* FUTEX_WAIT may return 0 spuriously (a stale FUTEX_WAKE of an already consumed post) */
 			if (fe) { errno = fe; return (-1); }
 			T[me].wval = (int) c;
 			__atomic_store_n (&T[me].a_addr, addr, __ATOMIC_RELEASE);
@@ -668,7 +669,7 @@ long __wrap_syscall (long n, long a, long b, long c, long d, long e, long f) {
 		sched_point (0);
 		if (ring_on) ring_put (EV_FWAIT, NULL, 0, addr);
 		if (__atomic_load_n (addr, __ATOMIC_RELAXED) != (int) c) { errno = EAGAIN; return (-1); }
-		{ int fe = take_fault (ts != NULL); if (fe) { errno = fe; return (-1); } }
+		{ int fe = take_fault (ts != NULL); if (fe == RT_FAULT_SPURIOUS_WAKE) return (0); if (fe) { errno = fe; return (-1); } }
 		T[me].waddr = addr; T[me].timed = 0; T[me].timedout = 0;
 		if (ts) {
 			if (ts->tv_sec < 0 || ts->tv_nsec < 0 || ts->tv_nsec >= 1000000000l) { errno = EINVAL; return (-1); }
